@@ -43,6 +43,8 @@ Inductive sx : Set :=
 | XScope (f : field)            (* node_scope.<f> *)
 | XFnScope (f : field)          (* fn_scope.<f> inside XClosure *)
 | XState                        (* the joined incoming state (live_out / defs_in) *)
+| XStateExit                    (* for-loop header: the join over the neighbours on loop-EXIT edges only *)
+| XLoopTargets                  (* node_scope.iterate_targets: loop targets of a for header (else empty) *)
 | XGenMap                       (* reaching definitions: the node's own definitions, gen_map[node] *)
 | XUnion (a b : sx)
 | XDiff (a b : sx)
@@ -58,12 +60,14 @@ Section Eval.
     e_scope : scope;
     e_fn : scope;
     e_state : A -> bool;
+    e_state_exit : A -> bool;
+    e_targets : list name;
     e_genmap : A -> bool;
     e_fns : list (bool * scope);       (* (is_lambda, ARGS_AND_BODY_SCOPE) of DEFINED_FNS_IN *)
     e_ann : bool }.
 
   Definition with_fn (e : env) (s : scope) : env :=
-    mkenv (e_scope e) s (e_state e) (e_genmap e) (e_fns e) (e_ann e).
+    mkenv (e_scope e) s (e_state e) (e_state_exit e) (e_targets e) (e_genmap e) (e_fns e) (e_ann e).
 
   Fixpoint ev (t : sx) (e : env) (a : A) : bool :=
     match t with
@@ -71,6 +75,8 @@ Section Eval.
     | XScope f => memn (key a) (fld f (e_scope e))
     | XFnScope f => memn (key a) (fld f (e_fn e))
     | XState => e_state e a
+    | XStateExit => e_state_exit e a
+    | XLoopTargets => memn (key a) (e_targets e)
     | XGenMap => e_genmap e a
     | XUnion x y => ev x e a || ev y e a
     | XDiff x y => ev x e a && negb (ev y e a)
@@ -111,6 +117,16 @@ Fixpoint passes (ia : bool) (t : sx) (K : list field) : bool :=
   | XUnion a b => passes ia a K || passes ia b K
   | XDiff a b => passes ia a K && only_fields b K
   | XIfAnn a b => if ia then passes ia a K else passes ia b K
+  | _ => false
+  end.
+
+(* t contains every item of the exit-edge state whose key is a loop target (edge-sensitive for header) *)
+Fixpoint passes_exit (ia : bool) (t : sx) : bool :=
+  match t with
+  | XInter XStateExit XLoopTargets | XInter XLoopTargets XStateExit => true
+  | XUnion a b => passes_exit ia a || passes_exit ia b
+  | XDiff a b => passes_exit ia a && only_fields b []
+  | XIfAnn a b => if ia then passes_exit ia a else passes_exit ia b
   | _ => false
   end.
 
